@@ -22,6 +22,8 @@ d["clck_start"] = sig.parameters["clck_start"].default
 bt = {b: i for i, b in enumerate(gsm_shared.BurstType)}
 d["burst_types"] = [b.name for b in gsm_shared.BurstType]
 d["train_seqs"] = [[ts.name, ts.tsc, ts.bt.name, list(ts.seq), ts.tsc_set] for ts in list(gsm_shared.TrainingSeqGMSK)]
+import rand_burst_gen
+d["dummy_burst"] = list(rand_burst_gen.RandBurstGen.db_bits)
 print(json.dumps(d))
 '''
 
@@ -58,6 +60,9 @@ def generate(run):
          "def trainSeqs : List (String × Nat × String × List Nat × Nat) := ["]
     L.append(",\n".join("  (%s, %d, %s, %s, %d)" % (vf.lean_str(n), tsc, vf.lean_str(bt), vf.lean_nat_list(seq), ts)
                         for n, tsc, bt, seq, ts in d["train_seqs"]))
-    L += ["]", "end OsmoVerif.Gen.World", ""]
+    L += ["]",
+          "/-- `RandBurstGen.db_bits` (rand_burst_gen.py) -/",
+          "def dummyBurst : List Nat := %s" % vf.lean_nat_list(d["dummy_burst"]),
+          "end OsmoVerif.Gen.World", ""]
     vf.write_if_changed(os.path.join(vf.LEAN, "OsmoVerif/Gen/World.lean"), "\n".join(L))
     return d
